@@ -226,48 +226,49 @@ func (p *Packet) NewData(data interface{}, dims []int16) error {
 			return fmt.Errorf("Packet.NewData dimensions %v multiply to more than %d values per frame", dims, math.MaxUint16)
 		}
 	}
-	p.headerLength = 24
+	hdrlen := 24
 	if p.timestamp != nil {
-		p.headerLength += 16
+		hdrlen += 16
 	}
 	pfmt := new(headPayloadFormat)
 	pfmt.dtype = make([]reflect.Kind, 1)
 	pfmt.endian = binary.LittleEndian
 	pfmt.nvals = 1
+	var nsamples int
 	switch d := data.(type) {
 	case []int16:
 		pfmt.rawfmt = "<h"
 		pfmt.dtype[0] = reflect.Int16
 		pfmt.wordlen = 2
-		p.payloadLength = uint16(pfmt.wordlen * len(d))
-		p.Data = d
+		nsamples = len(d)
 	case []int32:
 		pfmt.rawfmt = "<i"
 		pfmt.dtype[0] = reflect.Int32
 		pfmt.wordlen = 4
-		p.payloadLength = uint16(pfmt.wordlen * len(d))
-		p.Data = d
+		nsamples = len(d)
 	case []int64:
 		pfmt.rawfmt = "<q"
 		pfmt.dtype[0] = reflect.Int64
 		pfmt.wordlen = 8
-		p.payloadLength = uint16(pfmt.wordlen * len(d))
-		p.Data = d
+		nsamples = len(d)
 	default:
 		return fmt.Errorf("could not handle Packet.NewData of type %v", reflect.TypeOf(d))
 	}
+	hdrlen += 8 + 8*(1+ndim/4)
+	// Check the size before it is truncated to the header's 16-bit payload length, and change
+	// the packet only when it can hold the data.
+	payloadBytes := pfmt.wordlen * nsamples
+	if hdrlen+payloadBytes > maxPACKETLENGTH {
+		return fmt.Errorf("packet length %d exceeds max of %d", hdrlen+payloadBytes, maxPACKETLENGTH)
+	}
+	p.headerLength = uint8(hdrlen)
+	p.payloadLength = uint16(payloadBytes)
+	p.packetLength = hdrlen + payloadBytes
+	p.Data = data
 	p.format = pfmt
-	p.headerLength += 8
 	p.shape = new(headPayloadShape)
 	p.shape.Sizes = make([]int16, ndim)
-	for i := 0; i < ndim; i++ {
-		p.shape.Sizes[i] = dims[i]
-	}
-	p.headerLength += 8 * uint8(1+ndim/4)
-	p.packetLength = int(p.headerLength) + int(p.payloadLength)
-	if p.packetLength > maxPACKETLENGTH {
-		return fmt.Errorf("packet length %d exceeds max of %d", p.packetLength, maxPACKETLENGTH)
-	}
+	copy(p.shape.Sizes, dims)
 	p.sequenceNumber++
 	return nil
 }
